@@ -32,7 +32,7 @@ CLAIMED["C17"] = ("proof",
 CLAIMED["C01"] = ("proof",
     "Registry-generic Gallina model of the reflection encoder/decoder (TL/Types.v, TL/Codec.v) with the round-trip theorem decode(encode v) = norm v for every well-formed "
     "type universe and every well-typed value (TL/RoundTrip.v); decode(encode v) = v exactly when v is canonical (TL/Canonical.v: canonical_iff, C01_roundtrip_exact*; a non-canonical value - a bit-flag false beside a present member of its group - cannot come back unchanged, TL carries one bit per group); instantiated on the type universe regenerated from the tree by reflection on every run (Inst/C01i.v: every "
-    "struct descriptor except objects.Null and objects.MsgCopy well-formed, every constructor registered under its own id). msg_container and gzip_packed have hand-written codecs: correspondence only. Tied to the code by running tl.Marshal / tl.Decode / tl.DecodeUnknownObject and the "
+    "struct descriptor except objects.Null and objects.MsgCopy well-formed, every constructor registered under its own id). msg_container and gzip_packed have hand-written codecs, modelled in the same decoder: container round trip for every list of messages within the int32 fields of the format (TL/ContainerRT.v: C01_container_roundtrip*, counts and sizes beyond them refused), gzip_packed decodes to the normal form of the packed object under the compress/gzip oracle (C01_gzip_decodes) and is decode-only (known finding marshal-gzip). Tied to the code by running tl.Marshal / tl.Decode / tl.DecodeUnknownObject and the "
     "extracted model on the same values for every type of the universe (all flag-group presence patterns, boundary lengths, extremes), byte for byte.",
     "DESIGN.md section 8 (C01: plan) and section 11.4 / 11.6 (as built)",
     "Trusted: Coq kernel; the reflection translator and value abstraction; extraction + OCaml driver. Values outside the typing predicate (nil mandatory pointers, "
